@@ -89,6 +89,28 @@ def green_case(op, pos, empty, fbits, vals, raising=False, finish=False):
     return (outcome != "passed") == bad
 
 
+def outside_case(fbits, vals, xfail_first):
+    """comparisons made outside any test item (at import time) are not charged to a test: each test fails exactly when one
+    of its own snapshots is wrong"""
+    world.reset(dict(vals))
+    W.no_canon = True
+    try:
+        t = (HEAD + "probe = [x0 == snapshot(c0), x1 <= snapshot(c1)]\n\n\n"
+             + ("import pytest\n\n\n@pytest.mark.xfail\ndef test_0():\n    assert x0 == snapshot(c0)\n\n\n" if xfail_first else "")
+             + "def test_a():\n    assert y0 == snapshot(d0)\n\n\ndef test_b():\n    assert y1 == snapshot(d1)\n")
+        flags = [n for n, b in zip(FLAGS, fbits) if b]
+        r = world.plugin_session(t, cli=",".join(flags) if flags else "short-report", answers=[False] * 4, finish=False, xfail=("test_0",) if xfail_first else ())
+    finally:
+        W.no_canon = False
+    if r.usage_error is not None or r.finish_error is not None:
+        return False
+    oa = r.outcomes.get(("test_a.py", "test_a"))
+    ob = r.outcomes.get(("test_a.py", "test_b"))
+    v = vals
+    PathLog.record(f"outside{flags}{oa}{ob}{xfail_first}", nontrivial=True, sample={"flags": flags, "xfail_test_first": bool(xfail_first), "outcomes": [oa, ob]})
+    return (oa != "passed") == (not (v["y0"] == v["d0"])) and (ob != "passed") == (not (v["y1"] == v["d1"]))
+
+
 def wrong_single(op, x, v):
     if op in ("eq", "gi"):
         return not (x == v["c0"])
@@ -149,7 +171,7 @@ def real_exit_status():
 
 
 SHARED_OPS = [op for op in SUBJECT if not op.startswith("nested") and op != "align_raises"]
-GLB = {"green_case": green_case, "shared_case": shared_case, "__name__": "harness.c07"}
+GLB = {"outside_case": outside_case, "green_case": green_case, "shared_case": shared_case, "__name__": "harness.c07"}
 VALS = ["c0", "c1", "x0", "x1", "y0", "d0", "y1", "d1"]
 VD = "{" + ", ".join(f"{n!r}: {n}" for n in VALS) + "}"
 
@@ -189,6 +211,11 @@ def conditions(tier):
     conds.append(Cond("green_raising_test", mkfn("green_raising_test", fb + [(n, "int") for n in VALS], body, GLB, pre=["not f4 and not f5"]), timeout=900, group="green", bounds="test body raises after its snapshots"))
     body = f"return green_case('le', 1, False, [f0, f1, f2, f3, f4, f5], {VD}, False, True)"
     conds.append(Cond("green_with_sessionfinish", mkfn("green_with_sessionfinish", fb + [(n, "int") for n in VALS], body, GLB, pre=["not f4 and not f5 and not f3"]), timeout=900, group="green", bounds="same with the real pytest_sessionfinish executed afterwards (state handling)"))
+    for xf in (False, True):
+        name = f"outside_test_items{'_xfail_first' if xf else ''}"
+        body = f"return outside_case([f0, f1, f2, f3, f4, f5], {VD}, {xf})"
+        conds.append(Cond(name, mkfn(name, fb + [(n, "int") for n in VALS], body, GLB, pre=["not f4 and not f5"]), timeout=900, group="green",
+                          bounds="two snapshot comparisons at import time (== and <=, right or wrong by symbolic values)" + (", an xfail test," if xf else "") + " then two tests with one == snapshot each; every subset of create/fix/trim/update"))
     tw = mkfn("green_twin", fb + [(n, "int") for n in VALS], f"return green_case('in', 1, False, [f0, f1, f2, f3, f4, f5], {VD})", GLB, pre=["f1 and not f4"], post="not _")
     conds.append(Cond("green_twin", tw, timeout=60, twin=True))
     conds.append(Cond("real_exit_status", real_exit_status, concrete=True, group="contract-validation", bounds="8 fixed projects in a real pytest process: exit status non-zero iff a snapshot is wrong or missing"))
